@@ -549,17 +549,11 @@ theorem hp_mask_bits_rfc :
     Handshake.chachaFirstByteMaskLong = Handshake.aesFirstByteMaskLong ∧
     Handshake.chachaFirstByteMaskShort = Handshake.aesFirstByteMaskShort := by decide
 
-/-- full statement: the key-update label is the RFC's for BOTH versions -/
-def ku_label_rfc_full : Prop :=
-  Handshake.keyUpdateLabelV1 = Rfc.kuLabel 1 ∧ Handshake.keyUpdateLabelV2 = Rfc.kuLabel 2
-
-/-- ⚠ partial: QUIC v1 only. `getNextTrafficSecret` passes "quic ku" for every version. -/
-theorem ku_label_rfc_partial : Handshake.keyUpdateLabelV1 = Rfc.kuLabel 1 := by decide
-
-/-- the full statement is FALSE on the current tree: for QUIC v2 the code derives the next traffic secret
-    with "quic ku" where RFC 9369 §3.3.2 prescribes "quicv2 ku" (finding C05-v2-ku-label; after the fix in
-    fixes/C05-v2-ku-label.diff this theorem no longer compiles and `ku_label_rfc_full` is provable) -/
-theorem ku_label_rfc_witness : ¬ ku_label_rfc_full := by unfold ku_label_rfc_full; decide
+/-- `ku_label_rfc`: the key-update label is the RFC's for BOTH versions — "quic ku" (RFC 9001 §6.1) and
+    "quicv2 ku" (RFC 9369 §3.3.2). (Was false for QUIC v2 until /repo commit 6e47d06; the witness history
+    corpus/C05/keyphase/v2-ku-label.ops is kept as a regression.) -/
+theorem ku_label_rfc :
+    Handshake.keyUpdateLabelV1 = Rfc.kuLabel 1 ∧ Handshake.keyUpdateLabelV2 = Rfc.kuLabel 2 := by decide
 
 end Derivations
 
